@@ -96,8 +96,9 @@ def check_bilform_matrix(prog, report):
         if isinstance(n, ast.Assign) and isinstance(
                 n.value, ast.Call) and text(n.value.func) == 'np.zeros' and \
                 n.value.args and isinstance(n.value.args[0], ast.Tuple):
-            dims = [sizes.get(text(d), text(d))
-                    for d in n.value.args[0].elts]
+            dims = [sizes.get(text(d), text(d.args[0]) if isinstance(
+                d, ast.Call) and text(d.func) == 'len' and len(d.args) == 1
+                else text(d)) for d in n.value.args[0].elts]
             nz += 1
             report.check(
                 dims == ['elems_test', 'elems_trial'], 'R-index',
